@@ -843,3 +843,172 @@ def spellings_of(rec, args, kw):
     if rec.accumulate and first_poly and set(kw) <= {"axis"} and isinstance(kw.get("axis"), int):
         out.append("accumulate")
     return out
+
+
+# --------------------------------------------------------------------- numpoly-only callables
+# (no numpy counterpart): used by C03 (results well-formed), C15 (options), C17 (no mutation)
+
+EXTRA = {}
+
+
+def extra(name, cost=1, flags=()):
+    def deco(fn):
+        EXTRA[name] = (fn, cost, set(flags))
+        return fn
+    return deco
+
+
+@extra("call-partial")
+def _x_call(draw, og):
+    a = og.array(draw, max_ndim=2)
+    vals = {n: draw(st.integers(-2, 3)) for n in a["names"] if draw(st.booleans())}
+    return {"args": [P(a)], "kw": {"values": vals}}
+
+
+@extra("derivative")
+def _x_derivative(draw, og):
+    a = og.array(draw, max_ndim=2)
+    n = draw(st.integers(1, 2))
+    dv = [draw(st.sampled_from(a["names"])) for _ in range(n)]
+    if draw(st.integers(0, 4)) == 0:
+        dv.append("q77")  # unknown variable: the call raises after the first steps
+    return {"args": [P(a)], "kw": {"vars": dv}}
+
+
+@extra("gradient")
+def _x_gradient(draw, og):
+    return {"args": [P(og.array(draw, max_ndim=2))], "kw": {}}
+
+
+@extra("hessian", cost=2)
+def _x_hessian(draw, og):
+    return {"args": [P(og.array(draw, max_ndim=1))], "kw": {}}
+
+
+for _n in ("decompose", "isconstant", "tonumpy", "lead_exponent", "lead_coefficient", "sortable_proxy",
+           "clean_attributes", "polynomial", "aspolynomial", "indeterminants", "todict", "copy", "pickle",
+           "ravel", "flatten", "T", "iter", "str", "repr", "coefficients", "exponents", "to_sympy"):
+    @extra(_n, flags=("display",) if _n in ("str", "repr") else ())
+    def _x_unary(draw, og):
+        return {"args": [P(og.array(draw, max_ndim=2))], "kw": {}}
+
+
+@extra("set_dimensions")
+def _x_setdim(draw, og):
+    return {"args": [P(og.array(draw, max_ndim=2))], "kw": {"dimensions": draw(st.integers(1, 5))}}
+
+
+@extra("astype")
+def _x_astype(draw, og):
+    return {"args": [P(og.array(draw, max_ndim=2))],
+            "kw": {"dtype": draw(st.sampled_from(["float64", "complex128", "int64"]))}}
+
+
+for _n in ("align_polynomials", "align_shape", "align_indeterminants", "align_exponents"):
+    @extra(_n)
+    def _x_align(draw, og):
+        a, b = _pair(draw, og)
+        return {"args": [P(a), P(b)], "kw": {}}
+
+
+for _n in ("poly_divide", "poly_remainder", "poly_divmod", "op-truediv", "op-mod", "op-divmod"):
+    @extra(_n, cost=8, flags=("division",))
+    def _x_div(draw, og):
+        names = ["q0", "q1"][: draw(st.integers(1, 2))]
+        target = draw(st.sampled_from([(), (2,), (2, 2)]))
+        a = draw(gen.poly_desc(names=names, shape=target, kinds="if", max_terms=3, max_exp=2, retain=False))
+        b = draw(gen.poly_desc(names=names, shape=gen.broadcast_member(draw, target), kind=a["kind"],
+                               min_terms=1, max_terms=2, max_exp=1, retain=False))
+        return {"args": [P(a), P(b)], "kw": {}}
+
+
+@extra("getitem")
+def _x_getitem(draw, og):
+    a = og.array(draw, min_ndim=1)
+    idx = draw(st.sampled_from([0, -1, {"slice": [None, None, -1]}, {"slice": [0, 1, None]}, "ellipsis"]))
+    return {"args": [P(a)], "kw": {"index": idx}}
+
+
+def invoke_extra(name, args, kw):
+    import copy as _copy
+    import pickle
+
+    import numpoly
+
+    p = args[0]
+    if name == "call-partial":
+        return p(**kw["values"])
+    if name == "derivative":
+        return numpoly.derivative(p, *kw["vars"])
+    if name in ("gradient", "hessian", "decompose", "isconstant", "tonumpy", "lead_exponent", "lead_coefficient",
+                "sortable_proxy", "clean_attributes", "polynomial", "aspolynomial", "to_sympy"):
+        return getattr(numpoly, name)(p)
+    if name in ("indeterminants", "coefficients", "exponents", "T"):
+        return getattr(p, name)
+    if name == "todict":
+        return p.todict()
+    if name == "copy":
+        return (p.copy(), _copy.copy(p), _copy.deepcopy(p))
+    if name == "pickle":
+        return pickle.loads(pickle.dumps(p))
+    if name in ("ravel", "flatten"):
+        return getattr(p, name)()
+    if name == "iter":
+        return list(p)
+    if name == "str":
+        return str(p)
+    if name == "repr":
+        return repr(p)
+    if name == "set_dimensions":
+        return numpoly.set_dimensions(p, kw["dimensions"])
+    if name == "astype":
+        return p.astype(kw["dtype"])
+    if name.startswith("align_"):
+        return getattr(numpoly, name)(*args)
+    if name in ("poly_divide", "poly_remainder", "poly_divmod"):
+        return getattr(numpoly, name)(*args)
+    if name == "op-truediv":
+        return args[0] / args[1]
+    if name == "op-mod":
+        return args[0] % args[1]
+    if name == "op-divmod":
+        return divmod(args[0], args[1])
+    if name == "getitem":
+        idx = kw["index"]
+        if isinstance(idx, dict):
+            idx = slice(*idx["slice"])
+        elif idx == "ellipsis":
+            idx = Ellipsis
+        return p[idx]
+    raise ValueError(name)
+
+
+def any_call_strategy(og, names=None, extra_names=None, skip=()):
+    """Draw a call from RECIPES or EXTRA: {"fn", "args", "kw", "extra": bool}."""
+    rnames = sorted(n for n in (names if names is not None else RECIPES) if n not in skip)
+    xnames = sorted(n for n in (extra_names if extra_names is not None else EXTRA) if n not in skip)
+
+    @st.composite
+    def one(draw):
+        pool = [("r", n) for n in rnames] + [("x", n) for n in xnames]
+        kind, name = draw(st.sampled_from(pool))
+        if kind == "r":
+            call = RECIPES[name].gen(draw, og)
+            call["extra"] = False
+        else:
+            call = EXTRA[name][0](draw, og)
+            call["extra"] = True
+        call["fn"] = name
+        return call
+
+    return one()
+
+
+def run_call(call, args=None, kw=None, spelling="numpoly"):
+    if args is None:
+        args = resolve(call["args"], "live")
+    if kw is None:
+        kw = resolve(call["kw"], "live")
+    if call.get("extra"):
+        return invoke_extra(call["fn"], args, kw)
+    return invoke(RECIPES[call["fn"]], args, kw, spelling)
